@@ -187,6 +187,33 @@ def finer_than_atol(res):
                                  'api': cyc.MATRIX_API[name], 'input': h, 'resolution': 1e-9, 'impl_output': keys})
 
 
+def finer_with_raised_atol(res):
+    """the documented way out of the limitation above: with globalConfig.atol raised (12 digits) the keys of a nano-scale history on a 1e-9
+    grid are distinct again and the matrix is the matrix of the same history in units of 1e-9 with resolution 1"""
+    core.import_impl()
+    from ffpack import lsm
+    for hi in ([0, 3, 1, 4, 0], [2, 7, 1, 5, 3, 6, 2], [0, 5, 2, 9, 0, 4]):
+        h = [v * 1e-9 for v in hi]
+        for name in cyc.NAMES:
+            if not cyc.valid_for(name, hi):
+                continue
+            res.evaluations += 1
+            res.stat('fine_resolution_under_raised_atol')
+            try:
+                with cyc.with_atol(12):
+                    M, keys = getattr(lsm, cyc.MATRIX_API[name])(list(h), 1e-9)
+                M1, keys1 = getattr(lsm, cyc.MATRIX_API[name])([float(v) for v in hi], 1.0)
+            except Exception as e:  # noqa
+                res.failures.append({'signature': f'C07:{name}:raised-atol:raises:{hi}', 'clause': 'valid history raised under globalConfig.atol = 12: ' + repr(e)[:80],
+                                     'api': cyc.MATRIX_API[name], 'input': h, 'resolution': 1e-9})
+                continue
+            kv = [round(float(k.replace(',', '')) * 1e9) for k in keys]
+            kv1 = [round(float(k.replace(',', ''))) for k in keys1]
+            if len(set(keys)) != len(keys) or kv != kv1 or M != M1:
+                res.failures.append({'signature': f'C07:{name}:raised-atol:{hi}', 'clause': 'with globalConfig.atol = 12 the matrix of a history on a 1e-9 grid is not the matrix of the same history in units of 1e-9',
+                                     'api': cyc.MATRIX_API[name], 'input': h, 'resolution': 1e-9, 'impl_output': {'keys': keys, 'keys_unit_history': keys1}})
+
+
 def run(tier, seed):
     res = core.Result(PID, tier, seed)
     res.rule = ('random histories x resolutions (grid values incl. non powers of two) x seven matrix functions; non-trivial = '
@@ -195,6 +222,7 @@ def run(tier, seed):
     n = 700 if tier == 'quick' else 15000
     explore(res, random.Random(seed), n)
     finer_than_atol(res)
+    finer_with_raised_atol(res)
     caller_array_stream(res, random.Random(seed + 3), 12 if tier == 'quick' else 200)
     if (res.proof_problems or res.disagreements) and not res.failures:
         explore(res, random.Random(seed + 7919), 4 * n)
